@@ -1,5 +1,6 @@
 import CarModel.Proofs.Resume
 import CarModel.Proofs.FactsTie
+import CarModel.Properties.C04
 /-
 C12 — Resumption is transparent and refuses mismatched files without touching them.
 -/
@@ -63,6 +64,31 @@ theorem discard_reopen (api : Api) (o : WOpts) (roots : Option (List Cid)) (s : 
   obtain ⟨s', hres, inv', hc, hf, _, hfile⟩ := resume_open_file api o roots log hwf hmax hmax32 hlog
   rw [sh]
   exact ⟨s', hres, inv', hfile, hfile, by rw [inv'.pos, inv.pos], inv'.idx.trans inv.idx.symm, hc, hf⟩
+
+/-- **Interrupted = uninterrupted, for every later history.** A session at reference state `st` is
+    interrupted by Discard (or a dropped handle) and reopened with the same roots and options. Then any
+    later history of open-phase calls gets, on the resumed store, answers the reference map allows from
+    the SAME reference state `st` — exactly what `C04.open_run_refines` gives the uninterrupted store on
+    the same history — and both end related to the same reference state, so a closing Finalize writes the
+    same layout (C04.history_then_finalize, C05). -/
+theorem resumed_history (api : Api) (o : WOpts) (roots : Option (List Cid)) (s : Store) (st : Spec.State)
+    (rel : Rel o roots s st) (sh : OpenShape o roots s st.log) (hopen : s.finalized = false ∧ s.closed = false)
+    (hapi : s.api = api)
+    (hwf : (CarHeader.mk roots 1).wf) (hmax : (encodeHeaderBody ⟨roots, 1⟩).length ≤ o.maxHeader)
+    (hmax32 : (encodeHeaderBody ⟨roots, 1⟩).length ≤ 32 * 2 ^ 20) (hlog : LogOK st.log)
+    (hget : ∀ b ∈ st.log, b.getOk o) (ops : List Op)
+    (hops : ∀ op ∈ ops, op.isData api = true ∧ ∀ b ∈ op.blocks, b.getOk o) :
+    ∃ s', (resume api o roots s.file).res = .ok s' ∧
+      RunOk o st ops (Store.run o s' ops).2 ∧ RunOk o st ops (Store.run o s ops).2 ∧
+      Rel o roots (Store.run o s' ops).1 (Spec.run o st ops).1 ∧
+      Rel o roots (Store.run o s ops).1 (Spec.run o st ops).1 := by
+  obtain ⟨s', hres, inv', hc, hf, hapi', hfile⟩ := resume_open_file api o roots st.log hwf hmax hmax32 hlog
+  have rel' : Rel o roots s' st :=
+    ⟨inv', by rw [hc, ← rel.closed, hopen.2], by rw [hf, ← rel.finalized, hopen.1],
+      by rw [hapi', ← hapi, rel.api], rel.sroots⟩
+  obtain ⟨r1, r2, _, _⟩ := C04.open_run_refines o roots ops s' st rel' ⟨hf, hc⟩ hget (by rw [hapi']; exact hops)
+  obtain ⟨q1, q2, _, _⟩ := C04.open_run_refines o roots ops s st rel hopen hget (by rw [hapi]; exact hops)
+  exact ⟨s', by rw [sh]; exact hres, r1, q1, r2, q2⟩
 
 /-- Interrupt by Finalize, reopen: the index is cut off, the header un-finalised, and the store is
     back in the state of the un-finalised session with the same log. -/
